@@ -734,7 +734,7 @@ impl Property for BuiltinProp {
 
     fn rule(&self) -> String {
         match self.aspect {
-            BAspect::Arith => "op in {add,subtract,multiply,divide} x 1-4 numbers from a pool (small/large ints incl. +-2^53+1, +-2^62, i64 extremes; floats incl. +-0.0, fractions, 1e16, 1e17, +-1e300) x presentation {literal via API, variables bound directly or through chains via API, source text in function form, source text in infix form} x partner {unbound variable, equal constant, different constant, same value of the other numeric type} x side. Oracle: checked i64 / f64 left fold written in the harness, result compared bit-exactly, whole program compared with the reference solver. Non-trivial = >= 2 arguments and (mixed int/float, inexact integer division, or an operand reached through a variable chain); distinct by program text.".into(),
+            BAspect::Arith => "op in {add,subtract,multiply,divide} x 1-4 numbers from a pool (small/large ints incl. +-2^53+1, +-2^62, i64 extremes; floats incl. +-0.0, fractions, 1e16, 1e17, +-1e300) x presentation {literal via API, variables bound directly or through chains via API, source text in function form, source text in infix form} x partner {unbound variable, equal constant, different constant, same value of the other numeric type} x side. Oracle: checked i64 / f64 left fold written in the harness, result compared bit-exactly, whole program compared with the reference solver. Non-trivial = >= 2 arguments and (mixed int/float, inexact integer division, or an operand reached through a variable chain); distinct by program text. A fifth presentation supplies the operands as arguments of a fact written in text (nums(decoy, v1, .., vn).).".into(),
             BAspect::FuncSides => "a function term (arithmetic with literal/bound arguments, or join over words, punctuation, numbers, lists) paired with {unbound variable, variable bound to the value / another value, equal constant, other constant, atom, list, complex term, function of equal value, random function}, unified in both orders inside a rule. Oracle (metamorphic + reference): both orders give the same answers, equal to unifying the reference value. Every case is non-trivial; distinct by program text.".into(),
             BAspect::Compare => "operand pairs over ints (incl. extremes and neighbours of 2^53), floats (incl. -0.0/0.0, 2^53, +-1e300), atoms (unicode, spaces, digit-only, prefixes), unbound variable, $_, list, complex; second operand often equal to / the other-typed twin of the first; literal or through 1-3-link variable chains; 5 operators; via API, text named form, text infix form. Oracle: comparison table stated in the harness (numbers numerically with int->f64 conversion, atoms by string order, anything else fails) + reference solver; at most one answer. Non-trivial = operands of different kinds or identical operands; per-cell counters cell:<op>:<kind>x<kind>; distinct by program text.".into(),
             BAspect::Lists => "element sequences of length 0-5 over atoms, ints, variables, $_, nested lists (incl. [] and a list in last position), complex terms, optional tail variable / $_ tail; builders: parse_linked_list(text), recreate_variables of the parsed list, append/include/exclude whose result must be exactly the sequence, make_linked_list. Oracle (invariant + round-trip): well-formed node chain (terminator, counts, tail flag), decoded elements equal the sequence, count equals length, equal to the bridge-built list. Non-trivial = a list-valued element or a tail; distinct by (builder, list text).".into(),
